@@ -1674,7 +1674,8 @@ def canon_id(v):
                     (base_name(v.ty) in ('Keyspace', 'Database', 'Snapshot', 'SnapshotTracker', 'Supervisor', 'OptimisticTxKeyspace', 'SingleWriterTxKeyspace')
                      or 'ptr' in deref(v.fields[0].val).fields):
                 v = v.fields[0].val; continue
-            return ('obj', v.uid)
+            # clones of byte/str values keep their content identity (map keys of type StrView / Slice)
+            return ('obj', v.data.get('cid', v.uid)) if v.kind in ('str', 'bytes') else ('obj', v.uid)
         break
     if z3.is_expr(v):
         return ('val', str(z3.simplify(v)))
